@@ -274,7 +274,15 @@ func baseGolden() *epb.VMGoldenMeasurement {
 // signature, chain and time are checked, so none of it may influence that decision. Each shape is a
 // well-formed golden measurement a genuine signer could have produced.
 var shapes = []string{"base", "legacy-timestamp-no-provenance", "legacy-timestamp-inside-cert-window", "timestamp-at-release-change",
-	"timestamp-far-future", "commit-provenance", "snp-only", "tdx-only", "ca-bundle-root", "svsm-measurement"}
+	"timestamp-far-future", "commit-provenance", "snp-only", "tdx-only", "ca-bundle-root", "svsm-measurement",
+	// round 6: the other side of the verifier's provenance branch. A payload stamped after the
+	// release-process change without CL or commit is refused by release policy; that refusal says
+	// nothing about who made the endorsement, so no entry point may read it as "fine otherwise".
+	"recent-timestamp-no-provenance"}
+
+// shapeRefusedByPolicy: payload shapes that the verifier documents it refuses even when authentic
+// (verify.go: provenance is mandatory for payloads stamped after the release-process change).
+func shapeRefusedByPolicy(shape string) bool { return shape == "recent-timestamp-no-provenance" }
 
 func golden(shape string, w *world) *epb.VMGoldenMeasurement {
 	g := baseGolden()
@@ -292,6 +300,8 @@ func golden(shape string, w *world) *epb.VMGoldenMeasurement {
 		g.Timestamp = timestamppb.New(ts)
 	case "timestamp-at-release-change":
 		g.Timestamp, g.ClSpec = timestamppb.New(uefiReleaseChange), 0
+	case "recent-timestamp-no-provenance":
+		g.ClSpec = 0 // baseGolden is stamped t0, after the change
 	case "timestamp-far-future":
 		g.Timestamp = timestamppb.New(time.Date(2040, 1, 1, 0, 0, 0, 0, time.UTC))
 	case "commit-provenance":
